@@ -70,7 +70,13 @@ def fixtures(cfg):
     if cfg["h"] == "pipeline":
         return [dict(k=3), dict(k=1), dict(k=cfg["kmax"])]
     if cfg["h"] == "metric":
-        return [{"a0": 0.5, "a1": -1.0, "a2": 2.0, "b0": 0.25, "b1": 0.0, "b2": -3.0, "a3": 1.0, "b3": 1.0}]
+        out = [{"a0": 0.5, "a1": -1.0, "a2": 2.0, "b0": 0.25, "b1": 0.0, "b2": -3.0, "a3": 1.0, "b3": 1.0}]
+        # predictions that are distinct but nearly identical (consecutive samples of a slowly mixing chain), at several scales:
+        # a formula that is an identity over the reals can still lose every digit here
+        for scale, eps in ((1.0, 1e-9), (0.7, 3e-10), (123.456, 1e-7), (1e-3, 1e-13), (0.9, 1e-12)):
+            base = [scale * x for x in (1.0, 0.37, 0.81, 0.59)]
+            out.append(dict({"a%d" % i: base[i] for i in range(4)}, **{"b%d" % i: base[i] + eps * (1, -1, 2, -3)[i] for i in range(4)}))
+        return out
     if cfg["h"] == "arith":
         return [dict(n=10, k=3, c=1), dict(n=0, k=2, c=1), dict(n=5, k=12, c=11), dict(n=10, k=10, c=9)]
     if cfg["h"] == "cli":
@@ -384,6 +390,13 @@ def h_metric(ctx, cfg):
     ctx.prove(ctx.eq(daa, 0.0), "metric is zero on identical predictions")
     if not cfg["sigmoid"]:
         ctx.prove(ctx.eq(dab, _mse(ctx, a, b)), "metric is the mean of squared differences")
+        if ctx.mode != "sym":
+            # concrete fixtures: floating-point accuracy relative to the exact (rational) mean of squared differences
+            from fractions import Fraction
+            exact = sum((Fraction(float(x)) - Fraction(float(y))) ** 2 for x, y in zip(a, b)) / n
+            ctx.prove(abs(Fraction(float(dab)) - exact) <= exact / 10 ** 6,
+                      "metric equals the mean of squared differences to a relative accuracy of 1e-6 (also for nearly identical predictions)",
+                      key="metric loses its digits on nearly identical predictions")
     return 1
 
 
